@@ -304,7 +304,8 @@ pub fn nested_chain(depth: usize, array: bool) -> V {
 pub fn may_touch(left: &str, right: &str) -> bool {
     let l = left.as_bytes()[left.len() - 1];
     let r = right.as_bytes()[0];
-    matches!(l, b'}' | b']' | b'"') || matches!(r, b'{' | b'[' | b'"')
+    // a minus sign can only start a number: it ends whatever number or literal stands in front of it (`1e2-3`, `true-1`)
+    matches!(l, b'}' | b']' | b'"') || matches!(r, b'{' | b'[' | b'"') || (r == b'-' && (l.is_ascii_digit() || l.is_ascii_lowercase()))
 }
 
 #[cfg(test)]
